@@ -450,8 +450,10 @@ func (g *vcgen) alloc(x *ssa.Alloc) {
 	g.freshObjs[name] = true
 	elem := x.Type().Underlying().(*types.Pointer).Elem()
 	g.zeroInit(name, elem)
-	if cellIsLocal(x) {
-		g.localCells = append(g.localCells, name)
+	if stableCell(x, map[ssa.Value]bool{}) {
+		g.protectCell(name, elem, true)
+	} else if cellIsLocal(x) {
+		g.protectCell(name, elem, false)
 	}
 	if g.sharedCell[x] {
 		// contents may be changed by a concurrently running closure: every load returns an arbitrary value
@@ -856,6 +858,170 @@ func cellIsLocal(a *ssa.Alloc) bool {
 				default:
 					return false
 				}
+			}
+		default:
+			return false
+		}
+	}
+	return true
+}
+
+// stableCaptured: the captured variable behind free variable number idx of closure fn is assigned exactly once
+// (before it is captured) and is never written again by the enclosing functions or by any closure that captures it.
+// Nobody else can hold its address, so its content is fixed while fn runs.
+func stableCaptured(fn *ssa.Function, idx int) bool {
+	parent := fn.Parent()
+	if parent == nil {
+		return false
+	}
+	for _, b := range parent.Blocks {
+		for _, ins := range b.Instrs {
+			mc, ok := ins.(*ssa.MakeClosure)
+			if !ok || mc.Fn != fn || idx >= len(mc.Bindings) {
+				continue
+			}
+			return stableCell(mc.Bindings[idx], map[ssa.Value]bool{})
+		}
+	}
+	return false
+}
+
+func stableCell(cell ssa.Value, seen map[ssa.Value]bool) bool {
+	if seen[cell] {
+		return true
+	}
+	seen[cell] = true
+	switch c := cell.(type) {
+	case *ssa.Alloc:
+		stores := 0
+		for _, ref := range *c.Referrers() {
+			switch r := ref.(type) {
+			case *ssa.UnOp, *ssa.DebugRef:
+			case *ssa.FieldAddr:
+				if !onlyLoadedFrom(r) {
+					return false
+				}
+			case *ssa.Store:
+				if r.Val == c || r.Addr != c {
+					return false
+				}
+				stores++
+			case *ssa.MakeClosure:
+				cf, ok := r.Fn.(*ssa.Function)
+				if !ok {
+					return false
+				}
+				for i, bnd := range r.Bindings {
+					if bnd == c && !freeVarReadOnly(cf, i, seen) {
+						return false
+					}
+				}
+				if startedAsGoroutine(r) {
+					return false // runs concurrently with the assignment
+				}
+			default:
+				return false
+			}
+		}
+		return stores <= 1
+	case *ssa.FreeVar:
+		p := c.Parent()
+		for i, fv := range p.FreeVars {
+			if fv == c {
+				return freeVarReadOnly(p, i, seen) && stableCaptured(p, i)
+			}
+		}
+	}
+	return false
+}
+
+// freeVarReadOnly: closure fn only reads free variable idx (or hands it on to closures that only read it)
+func freeVarReadOnly(fn *ssa.Function, idx int, seen map[ssa.Value]bool) bool {
+	if idx >= len(fn.FreeVars) {
+		return false
+	}
+	fv := fn.FreeVars[idx]
+	if fv.Referrers() == nil {
+		return true
+	}
+	for _, ref := range *fv.Referrers() {
+		switch r := ref.(type) {
+		case *ssa.UnOp, *ssa.DebugRef:
+		case *ssa.FieldAddr:
+			if !onlyLoadedFrom(r) {
+				return false
+			}
+		case *ssa.MakeClosure:
+			cf, ok := r.Fn.(*ssa.Function)
+			if !ok {
+				return false
+			}
+			for i, bnd := range r.Bindings {
+				if bnd == fv && !freeVarReadOnly(cf, i, seen) {
+					return false
+				}
+			}
+		default:
+			return false
+		}
+	}
+	return true
+}
+
+func startedAsGoroutine(mc *ssa.MakeClosure) bool {
+	if mc.Referrers() == nil {
+		return false
+	}
+	for _, u := range *mc.Referrers() {
+		if _, isGo := u.(*ssa.Go); isGo {
+			return true
+		}
+	}
+	return false
+}
+
+// protectCell registers a variable cell that no callee can write: scalar cells by address in the P.<sort> array,
+// struct cells field by field in the heap arrays of their type
+func (g *vcgen) protectCell(cell string, elem types.Type, stable bool) {
+	if stable {
+		if g.stableCells == nil {
+			g.stableCells = map[string]bool{}
+		}
+		g.stableCells[cell] = true
+	}
+	if st, isS := elem.Underlying().(*types.Struct); isS && isDecomposedStruct(elem) {
+		if g.localFields == nil {
+			g.localFields = map[string][]string{}
+		}
+		for i := 0; i < st.NumFields(); i++ {
+			ft := st.Field(i).Type()
+			if _, nested := ft.Underlying().(*types.Struct); nested && isDecomposedStruct(ft) {
+				g.protectCell(g.emb(elem, st.Field(i).Name(), cell), ft, stable)
+				continue
+			}
+			n, _ := g.fieldArr(elem, i)
+			g.localFields[n] = append(g.localFields[n], cell)
+		}
+		return
+	}
+	g.localCells = append(g.localCells, cell)
+}
+
+// onlyLoadedFrom: the field address is only ever dereferenced for reading (never stored through, never passed on)
+func onlyLoadedFrom(fa *ssa.FieldAddr) bool {
+	if fa.Referrers() == nil {
+		return true
+	}
+	for _, ref := range *fa.Referrers() {
+		switch r := ref.(type) {
+		case *ssa.DebugRef:
+		case *ssa.UnOp:
+			if r.Op != token.MUL {
+				return false
+			}
+		case *ssa.FieldAddr:
+			if !onlyLoadedFrom(r) {
+				return false
 			}
 		default:
 			return false
